@@ -55,7 +55,10 @@ Families == <<
   [name |-> "paths", keyPrefix |-> "", reqPrefix |-> ""],             \* tsconfig.json compilerOptions.paths {"KEY": [T]} + baseUrl
   [name |-> "paths-extends", keyPrefix |-> "", reqPrefix |-> ""],     \* the same, paths inherited through "extends", no baseUrl
   [name |-> "browser", keyPrefix |-> "", reqPrefix |-> ""],           \* package.json {"browser": {"KEY": T, "./KEY": T}}, import "REQ" and "./REQ"
-  [name |-> "alias", keyPrefix |-> "", reqPrefix |-> ""] >>           \* BuildOptions.Alias {"KEY": T}
+  [name |-> "alias", keyPrefix |-> "", reqPrefix |-> ""],             \* BuildOptions.Alias {"KEY": T}
+  \* the key as a GLOB: node_modules/pkg/package.json {"sideEffects": ["KEY", "./KEY", "KEY/**", "**/KEY", "?KEY", "[KEY", "KEY[a-b]?"]}
+  \* (glob-to-regexp conversion; "*" and "**" come from the key, "?" and "[" from the decoration), import "pkg/REQ"
+  [name |-> "sideEffects", keyPrefix |-> "", reqPrefix |-> "pkg/"] >>
 
 \* pj: the JSON value in a package.json table, ts: the value of a tsconfig "paths" entry, alias: the alias option value
 Targets == <<
@@ -68,7 +71,11 @@ Targets == <<
   [name |-> "invalid-target", pj |-> "\"../*\"", ts |-> "[\"*/../../*\"]", alias |-> "*"],
   [name |-> "two-stars", pj |-> "\"./src/*/*.js\"", ts |-> "[\"./src/*/*.js\"]", alias |-> "./src/*"],
   [name |-> "invalid-type", pj |-> "[1, true, [], {}]", ts |-> "[1, {}, null, \"\"]", alias |-> "."],
-  [name |-> "false", pj |-> "false", ts |-> "\"./src/*\"", alias |-> "a"] >>
+  [name |-> "false", pj |-> "false", ts |-> "\"./src/*\"", alias |-> "a"],
+  \* self-referential / cyclic: %KEY% stands for the key of the entry itself (substituted by the harness), so the
+  \* target of the entry is the entry again (browser map: "KEY" -> "./KEY" -> "./KEY"; alias KEY -> KEY)
+  [name |-> "self", pj |-> "\"./%KEY%\"", ts |-> "[\"%KEY%\", \"./%KEY%\"]", alias |-> "%KEY%"],
+  [name |-> "self-conditions", pj |-> "{\"import\": \"./%KEY%\", \"default\": [\"%KEY%\", \"./%KEY%/\"]}", ts |-> "[\"./%KEY%/*\"]", alias |-> "./%KEY%"] >>
 
 Platforms == <<"node", "browser", "neutral">>
 
